@@ -852,7 +852,11 @@ func (c *Ctx) rulesR3ask() {
 	}
 	// polarity at the producer
 	nw := 0
-	for _, w := range writesOfFieldIn(pq, fCanc) {
+	var cancW []fieldWrite
+	for _, hf := range c.hostedFns(pq) {
+		cancW = append(cancW, writesOfFieldIn(hf, fCanc)...)
+	}
+	for _, w := range cancW {
 		nw++
 		neg := false
 		v := w.Val
